@@ -84,7 +84,7 @@ func init() {
 			"pending_futures": getty.VerifPendingFutures(),
 			"merged_pending":  getty.VerifMergedPending(),
 			"sessions_open":   open, "sessions_closed": closed, "session_counter": counter,
-			"goroutines":      runtime.NumGoroutine(),
+			"goroutines":         runtime.NumGoroutine(),
 			"parked_in_delivery": parked, "parked_samples": parkedSamples,
 		}, nil
 	})
